@@ -11,7 +11,8 @@
                    dr1, ds1, dr2, ds2   duration of each attempt in ms,
                    hang            1 if an attempt had not ended at the horizon],
                    e_r1, e_s1, e_r2, e_s2   the BindContext state class when each attempt ended,
-                   a_r, a_s        the state class after the first round],
+                   a_r, a_s        the state class after the first round,
+                   br2, bs2, a_r2, a_s2   is_binding / the state class after the second round],
       pred    |-> << outcome records that TLC computed on the as-is model for this scenario >>,
       predfix |-> << the same on the repaired model >>]
 
@@ -46,6 +47,9 @@ Clauses(t) ==
                    THEN {<<1, "C20a_success", o.r1, o.s1, "">>} ELSE {}
         Still   == (IF o.br = 1 THEN {<<1, "C20c_still_binding", "R", o.a_r, "">>} ELSE {})
                    \cup (IF o.bs = 1 THEN {<<1, "C20c_still_binding", "S", o.a_s, "">>} ELSE {})
+        \* ... and after the second round too (every state timer has fired by then)
+        Still2  == (IF o.br2 = 1 THEN {<<1, "C20c_still_binding", "R", o.a_r2, "after-2nd">>} ELSE {})
+                   \cup (IF o.bs2 = 1 THEN {<<1, "C20c_still_binding", "S", o.a_s2, "after-2nd">>} ELSE {})
         Why(role) == IF (role = "R" /\ o.br = 1) \/ (role = "S" /\ o.bs = 1) THEN "stuck"
                      ELSE IF o.br = 1 \/ o.bs = 1 THEN "peerstuck" ELSE "clean"
         Retry   == (IF o.r2 # "ok" THEN {<<1, "C20c_retry", "R", o.r2, Why("R")>>} ELSE {})
@@ -56,7 +60,7 @@ Clauses(t) ==
                     THEN {<<1, "DRIFT_F", "", "", "">>} ELSE {})
                    \cup (IF Len(it.predfix) > 0 /\ ~(\E i \in 1..Len(it.predfix) : Same(it.predfix[i]))
                     THEN {<<1, "DRIFT_T", "", "", "">>} ELSE {})
-    IN  ErrType \cup Late \cup Hang \cup Succ \cup Still \cup Retry \cup Drift
+    IN  ErrType \cup Late \cup Hang \cup Succ \cup Still \cup Still2 \cup Retry \cup Drift
 
 SetToSeq(S) == IF S = {} THEN <<>> ELSE
     LET RECURSIVE F(_) 
